@@ -605,11 +605,16 @@ def run_case(case, caching=True, evaluations=1, tree_out=None, ambient=None):
         after = [{k: (list(v) if isinstance(v, list) else v) for k, v in vars(o).items()} for o in b.objs]
         if any(set(x) != set(y) or any(x[k] is not y[k] and x[k] != y[k] for k in x) for x, y in zip(snapshot, after)):
             outs.append(('data_modified',))
+        while held:
+            held.pop().close()       # closing an abandoned iterator must not raise (an exception here is reported)
         return outs
     except Exception as e:  # reported, never swallowed silently
         return [('exc', type(e).__name__, str(e)[:200])]
     finally:
         for it in held:
-            it.close()
+            try:
+                it.close()
+            except Exception:
+                pass
         enable_caching()
         reset_library_state()
